@@ -46,6 +46,7 @@ func c09Catalogue() []Shape {
 		)
 	}
 	cores = append(cores,
+		core{"single-instruction/pow", "x = 1 ** 9000000000000000000; y = 2 ** 4611686018427387904;", false, true},
 		core{"big-range/tick", "foreach x in 1..20000 { tick(); }", false, true},
 		core{"term-while/tick", "n = 0; while (n < 10) { n++; tick(); } return n;", false, true},
 		core{"term-foreach/tick", "foreach x in 1..20 { tick(); } return 7;", false, true},
@@ -342,6 +343,12 @@ func (p *c09) Run(c *verifsim.Chooser, st *Stats, render bool) *Outcome {
 		o.violate("C09/disturbed", family, "Prepare failed only with a simulated context: %v %v", err, esc)
 		return o
 	}
+	if mode == 1 && !prepTwice && c.Intn(4) == 1 {
+		// the host hands over another (never cancelled) context afterwards
+		// without preparing again: the one given before Prepare still rules
+		e.SetContext(verifsim.NewSimContext(-1))
+		family += "+late-setcontext"
+	}
 	var r Result
 	under(ctx, func() {
 		if useRun {
@@ -430,10 +437,17 @@ func (p *c09) Run(c *verifsim.Chooser, st *Stats, render bool) *Outcome {
 		nTrace := len(h.Trace)
 		var r2 Result
 		under(ctx, func() {
+			// same front end again first (a lock taken and not given back
+			// by the refusal would block here), then the other one
 			if useRun {
-				r2 = doExecute(e, nil)
-			} else {
 				r2 = doRun(e, nil)
+			}
+			if !useRun || r2.Failed {
+				if useRun {
+					r2 = doExecute(e, nil)
+				} else {
+					r2 = doRun(e, nil)
+				}
 			}
 		})
 		if !r2.Failed && r2.Escaped == nil && tw.ticks != 0 {
